@@ -210,15 +210,15 @@ LoadNew(b, t) ==
 RECURSIVE Batches(_)
 Batches(k) == IF k = 0 THEN {} ELSE [1..k -> Rows] \cup Batches(k - 1)
 
-Next ==
-  \/ "act" \in Ops /\ \E a \in Slots, b \in Batches(MaxB) : Act(a, b, FALSE)
-  \/ "act" \in Ops /\ \E a \in Slots, r \in Rows : Act(a, <<r>>, TRUE)
-  \/ "learn" \in Ops /\ \E a \in Slots, r \in Rows, r2 \in Rows : Learn(a, <<r>>, <<r2>>)
-  \/ "mode" \in Ops /\ \E a \in Slots, t \in BOOLEAN : SetMode(a, t)
-  \/ "clone" \in Ops /\ \E a \in Slots, b \in Slots : ag[a].alive /\ Clone(a, b, ag[a].training)
-  \/ "save" \in Ops /\ \E a \in Slots : Save(a)
-  \/ "load" \in Ops /\ ckpt.alive /\ \E b \in Slots : Load(b, ckpt.training)
-  \/ "loadnew" \in Ops /\ ckpt.alive /\ \E b \in Slots : LoadNew(b, ckpt.training)
+ActAny     == "act" \in Ops /\ \E a \in Slots, b \in Batches(MaxB) : Act(a, b, FALSE)
+ActUnb     == "act" \in Ops /\ \E a \in Slots, r \in Rows : Act(a, <<r>>, TRUE)
+LearnAny   == "learn" \in Ops /\ \E a \in Slots, r \in Rows, r2 \in Rows : Learn(a, <<r>>, <<r2>>)
+ModeAny    == "mode" \in Ops /\ \E a \in Slots, t \in BOOLEAN : SetMode(a, t)
+CloneAny   == "clone" \in Ops /\ \E a \in Slots, b \in Slots : ag[a].alive /\ Clone(a, b, ag[a].training)
+SaveAny    == "save" \in Ops /\ \E a \in Slots : Save(a)
+LoadAny    == "load" \in Ops /\ ckpt.alive /\ \E b \in Slots : Load(b, ckpt.training)
+LoadNewAny == "loadnew" \in Ops /\ ckpt.alive /\ \E b \in Slots : LoadNew(b, ckpt.training)
+Next == ActAny \/ ActUnb \/ LearnAny \/ ModeAny \/ CloneAny \/ SaveAny \/ LoadAny \/ LoadNewAny
 
 Spec == Init /\ [][Next]_vars
 
